@@ -5,7 +5,8 @@ or served as in-memory xlrd look-alikes for the .xls branch (xlwt is not availab
 `xls_to_json_data` / `convert_file` / `read_service_sheet`; the same parsed rows are converted by the Gallina model
 `Verif.Model.Sheet.convert` / `read_service_sheet` (vm_compute) and the two results are compared element by element
 (uids as byte strings, types, parameters, connections in order; which rule rejects a malformed workbook).
-`Request_element` is additionally compared row by row on directly constructed `Request` objects.
+`Request_element` is additionally compared row by row on directly constructed `Request` objects, and the header
+recognition (`parse_headers`: which column is read as which field) on disturbed sheets.
 
 Oracle (the property evaluated on what gnpy produced, from the workbook description only): one ROADM + transceiver
 per ROADM site, fused / amplifier pair per line site, one fibre per direction per link with the values of its side
@@ -326,18 +327,18 @@ def gen_services(rng, case, modelled=True):
             ent = []
             for _ in range(rng.randint(1, 4)):
                 k = rng.random()
-                if k < 0.35 and declared:
+                if k < 0.25 and declared:
                     ent.append(rng.choice(declared))
-                elif k < 0.6:
+                elif k < 0.42:
                     ent.append('roadm ' + rng.choice(roadms))
-                elif k < 0.7:
+                elif k < 0.49:
                     ent.append('trx ' + rng.choice(roadms))
-                elif k < 0.78:
+                elif k < 0.55:
                     l = rng.choice(case['links'])
                     ent.append(f"fiber ({l['a']} {ARROW} {l['z']})-{l['east']['cable'] or ''}")
-                elif k < 0.88:
+                elif k < 0.63:
                     ent.append(rng.choice(['nowhere', 'Paris', 'roadm nowhere', 'zz9']))
-                elif k < 0.94 and lines:
+                elif k < 0.9 and lines:
                     ent += line_hops(rng, case, ftypes)
                 else:
                     ent.append(rng.choice(amp_names(case, ftypes) or ['roadm ' + rng.choice(roadms)]))
@@ -359,18 +360,18 @@ def gen_services(rng, case, modelled=True):
                      'power': rng.choice([None, 0, 1, -1.5, 2.25, 3]),
                      'nbch': rng.choice([None, 80, 40.0, 96, 10.9]),
                      'disj': disj, 'path': route,
-                     'loose': rng.choice([None, None, 'yes', 'Yes', 'YES', 'no', 'No', 'NO', 'y']),
+                     'loose': rng.choice([None, None, 'yes', 'Yes', 'YES', 'yes', 'no', 'No', 'y']),
                      'bw': rng.choice([None, 100, 150.5, 400, 0])})
     # one service-level error in some sheets
     k = rng.random()
     r = rng.choice(rows)
-    if k < 0.06:
+    if k < 0.03:
         r['trx'] = rng.choice(['NoSuchTrx', None, 7])
-    elif k < 0.12:
+    elif k < 0.06:
         r['mode'] = rng.choice(['mode 9', 5])
-    elif k < 0.18:
+    elif k < 0.09:
         r['spacing'] = rng.choice([None, 0])
-    elif k < 0.24:
+    elif k < 0.13:
         r[rng.choice(['src', 'dst'])] = rng.choice((lines or ['nowhere']) + ['nowhere', None])
     return rows
 
@@ -1343,11 +1344,14 @@ def run(ctx):
                 'exactly one sanity rule; a case is non-trivial when it has a line site and an Eqpt or two-sided row; '
                 'distinct by content hash')
     valid, malformed = [], []
-    corpus = []
+    corpus, corpus_hdr = [], []
     for f in sorted(glob.glob(os.path.join(common.VERIF, 'corpus', 'C20', '*.json'))):
         c = json.load(open(f))
         c['_corpus'] = os.path.basename(f)
-        corpus.append(c)
+        if 'grid' in c:
+            corpus_hdr.append(c)
+        else:
+            corpus.append(c)
     replay_rows = []
     replay_hdr = None
     if ctx.replay:
@@ -1359,7 +1363,7 @@ def run(ctx):
         else:
             corpus = [rc]
     else:
-        nvalid = ctx.scale(150, 1000)
+        nvalid = ctx.scale(130, 1000)
         nbig = ctx.scale(3, 15)
         nmal = ctx.scale(96, 480)
         valid = [gen_case(rng) for _ in range(nvalid)] + [gen_case(rng, big=True) for _ in range(nbig)]
@@ -1476,8 +1480,9 @@ def run(ctx):
         # header recognition on disturbed sheets
         hdr_cases, hdr_impl = [], []
         if not ctx.replay:
+            hdr_cases += corpus_hdr
             src = [c for c in valid if not c.get('fixture')]
-            for k in range(ctx.scale(160, 1500) if src else 0):
+            for k in range(ctx.scale(120, 1500) if src else 0):
                 hc = gen_header_grid(rng, rng.choice(src))
                 hdr_cases.append(hc)
         elif replay_hdr is not None:
@@ -1490,7 +1495,7 @@ def run(ctx):
         req_rows = list(replay_rows)
         if not ctx.replay:
             base = [c for c in valid if c.get('services')]
-            for c in base[:ctx.scale(70, 500)]:
+            for c in base[:ctx.scale(50, 500)]:
                 for s in c['services']:
                     s = dict(s)
                     k = rng.random()
@@ -1600,10 +1605,13 @@ def run(ctx):
         'cell reading is done by openpyxl (real .xlsx files) and, for the .xls branch, by in-memory look-alikes of '
         'xlrd sheets served through gnpy.tools.xls_utils.open_workbook (xlwt is unavailable); real .xls parsing is '
         'exercised only by the shipped fixtures',
-        'the model takes parsed, typed rows: header recognition is exercised on the real code but not modelled; the '
-        'Roadms sheet\'s per-degree impairment columns, region filtering and wrongly typed cells are outside the model',
-        'route-name correction is modelled for ROADM cities, exact ROADM uids, transceiver / fibre uids and unknown '
-        'names on the undesigned network; ILA / FUSED city names are judged by the oracle on the designed network only',
+        'the workbook-level model takes parsed, typed rows; header recognition (read_header / read_slice / parse_headers) '
+        'is modelled separately and compared on disturbed sheets (columns removed, labels embedded in other cells, numbers '
+        'in header lines, lines shifted); region filtering and wrongly typed cells are outside the model; in .xlsx files '
+        'impairment ids are written as text (openpyxl hands integers over as int, which transform_data does not accept)',
+        'route-name correction (corresp_names, corresp_next_node, find_node_sugestion, correct_xls_route_list) is modelled '
+        'in full on the network before auto-design; on the designed network (auto-design amplifier names, split fibres) '
+        'the result is judged by the oracle only',
         'dBm -> W and pmd_coef use transcendental functions: compared against math.pow / as squares',
     ]
     return common.finish(ctx, MATCHERS)
